@@ -8,6 +8,9 @@ import AkVerif.Lemmas.LLLl1Final
 import AkVerif.Lemmas.LLTmpl
 import AkVerif.Lemmas.LLUniqueTop
 import AkVerif.Lemmas.LLLl1Check
+import AkVerif.Lemmas.LLTmplC02
+import AkVerif.Lemmas.LLCtorN
+import AkVerif.Lemmas.LLUserSets
 /-!
 # C02 — conflict-free (LL(1)) grammars are parsed exactly
 
@@ -106,9 +109,12 @@ theorem reject_raises (inp : CtorIn) (P : Parser) (hP : construct inp = .ok P)
   exact reject_of_built hB hD hnd (start_user_of_built hB hstart) raw hEnd hnot
 
 /-- **Exactness and rejection for dictionaries with templates** (generated productions as data `T`,
-`PlainNames` as in `C01.parse_valid_templates`): the list / map / sequence shapes are right-recursive
-LL(1) grammars, parsed exactly and rejected with `ParsingError`, whatever the length of the input. -/
-theorem exact_templates (T : Tmpl) (inp : CtorIn) (P : Parser) (hP : constructG T inp = .ok P)
+`PlainNames` as in `C01.parse_valid_templates`; `constructGN nonull T` is the constructor the driver executes:
+`constructG T` plus the templates' own `verify_grammar` stage, `nonull` = item symbols of the delimiter-less list
+templates): the list / map / sequence shapes are right-recursive LL(1) grammars, parsed exactly and rejected
+with `ParsingError`, whatever the length of the input. -/
+theorem exact_templates (nonull : List (List Char)) (T : Tmpl) (inp : CtorIn) (P : Parser)
+    (hP : constructGN nonull T inp = .ok P)
     (hpl : PlainNames inp.prods) (hstart : inp.start ∈ inp.prods.map (·.1))
     (hamb : isAmbiguous P.table = false) (raw : List (List Char × List Char))
     (hEnd : ∀ tok ∈ (P.tokens raw).dropLast, tok.name ≠ endSym) :
@@ -116,7 +122,7 @@ theorem exact_templates (T : Tmpl) (inp : CtorIn) (P : Parser) (hP : constructG 
       InLang P.terminals P.userProds P.start (P.tokens raw).dropLast) ∧
     (¬ InLang P.terminals P.userProds P.start (P.tokens raw).dropLast →
       ∃ k, ∀ fuel, k ≤ fuel → P.parse raw fuel = .error .parsingError) :=
-  ⟨exact_G hP hpl hstart hamb raw hEnd, reject_G hP hpl hstart raw hEnd⟩
+  ⟨exact_G (constructGN_ok hP) hpl hstart hamb raw hEnd, reject_G (constructGN_ok hP) hpl hstart raw hEnd⟩
 
 /-- **Identically for both `smart_factorization` settings**: two parsers built from the same
 arguments except `smart_factorization`, both reporting no ambiguity, accept the same texts. -/
@@ -158,15 +164,27 @@ theorem conflict_report_exact (inp : CtorIn) (P : Parser) (hP : construct inp = 
   have hB := construct_built hP
   exact not_ambiguous_iff_disjoint (built_struct hB).1 hB.hT
 
+/-- **The set functions never fail on the dictionary the user wrote**: for every parser the constructor returns
+(start symbol a key of `productions`) the model's nullable / FIRST / FOLLOW functions — the same three functions the
+constructor applies to the factorised dictionary — succeed on the *user's* dictionary: its right-hand side symbols
+are terminals or keys, no `KeyError` place is reachable and the fuel suffices (`fuel_enough`).  That they return
+the least sets of their dictionary is `LL.nullables_least`, `LL.firstSets_exact`, `LL.followSets_exact`.  So "the
+predict sets of the grammar as written" below are defined for every accepted grammar, not assumed. -/
+theorem user_sets_total (inp : CtorIn) (P : Parser) (hP : construct inp = .ok P)
+    (hstart : inp.start ∈ inp.prods.map (·.1)) :
+    ∃ NU FU WU, nullables P.userProds = .ok NU ∧ firstSets P.terminals NU P.userProds = .ok FU ∧
+      followSets P.terminals NU FU P.userProds P.start endSym = .ok WU :=
+  LL.user_sets_total hP hstart
+
 /-- **A grammar that is LL(1) as written is reported as not ambiguous** (both `smart_factorization`
 values).  "LL(1) as written": for every symbol of the *user's* productions the predict sets of its
-alternatives are pairwise disjoint, the sets being computed by the model's nullable / FIRST / FOLLOW
-functions on the user's dictionary (`hNU`, `hFU`, `hWU`: the same three functions the constructor applies to the
-factorised dictionary; that they return the least sets of their dictionary is `LL.nullables_least`,
-`LL.firstSets_exact`, `LL.followSets_exact` — `sets_exact` above is their instance for the factorised one).
-All hypotheses are met by a concrete grammar with a nullable symbol and a unit production: `ll1_as_written_nonvacuous`.
-Hypotheses: the start symbol is a key of `productions`; every key has at least one alternative
-(`hne`; without it the statement is false, see the example below).
+alternatives are pairwise disjoint, the sets being `NU`, `FU`, `WU` = what the model's nullable / FIRST / FOLLOW
+functions return on the user's dictionary — they exist for every accepted grammar (`user_sets_total`; the statement
+provides them, it does not assume them) and are the least sets (`LL.nullables_least`, `LL.firstSets_exact`,
+`LL.followSets_exact`).
+Hypotheses, all of them: the constructor returned `P`; the start symbol is a key of `productions` (`hstart`);
+every key has at least one alternative (`hne`; without it the statement is false, see the example below).
+(The earlier form with `hNU`/`hFU`/`hWU` as hypotheses is the lemma `LL.ll1_unambiguous`.)
 Ingredients: exactness of the computed sets for both dictionaries; FIRST/FOLLOW/nullable of the
 factorised dictionary are contained in those of the user's dictionary (helpers read through their
 expansions); the *ordered* identity `C01.factorize_ordered` (different rules of a key cover disjoint
@@ -174,16 +192,13 @@ ranges of the user's alternatives); "a symbol with rules is nullable or has a no
 non-left-recursive grammars (so the common prefix of a factorised group is nullable whenever its
 members are to be distinguished by the remainder). -/
 theorem ll1_as_written_unambiguous (inp : CtorIn) (P : Parser) (hP : construct inp = .ok P)
-    (NU : List Sym) (FU WU : SetMap Sym)
-    (hNU : nullables P.userProds = .ok NU)
-    (hFU : firstSets P.terminals NU P.userProds = .ok FU)
-    (hWU : followSets P.terminals NU FU P.userProds P.start endSym = .ok WU)
     (hne : ∀ X rules, (X, rules) ∈ P.userProds → rules ≠ [])
-    (hstart : inp.start ∈ inp.prods.map (·.1))
-    (hLL1 : ∀ X rules, (X, rules) ∈ P.userProds →
-        rules.Pairwise (PredDisjoint P.terminals NU FU WU X)) :
-    isAmbiguous P.table = false :=
-  ll1_unambiguous hP hNU hFU hWU hne hstart hLL1
+    (hstart : inp.start ∈ inp.prods.map (·.1)) :
+    ∃ NU FU WU, nullables P.userProds = .ok NU ∧ firstSets P.terminals NU P.userProds = .ok FU ∧
+      followSets P.terminals NU FU P.userProds P.start endSym = .ok WU ∧
+      ((∀ X rules, (X, rules) ∈ P.userProds → rules.Pairwise (PredDisjoint P.terminals NU FU WU X)) →
+        isAmbiguous P.table = false) :=
+  ll1_unambiguous' hP hne hstart
 
 /-! Non-vacuity of `ll1_as_written_unambiguous`: `S → X t Y ; X → A ; A → a | ε ; Y → A c | t d` (a unit
 production over a nullable symbol, FOLLOW needed to tell the alternatives of `A` apart) meets **every**
@@ -218,7 +233,7 @@ theorem ll1_as_written_nonvacuous (smart : Bool) :
     simp only [Bool.and_eq_true, decide_eq_true_eq] at hs
     obtain ⟨NU, FU, WU, h1, h2, h3, h4, h5⟩ := ll1Check_sound hs.1
     exact ⟨P, NU, FU, WU, rfl, h1, h2, h3, h4, hs.2, h5,
-      ll1_as_written_unambiguous _ P hc NU FU WU h1 h2 h3 h4 hs.2 h5⟩
+      ll1_unambiguous hc h1 h2 h3 h4 hs.2 h5⟩
 
 /-- **The LL(1) verdict makes the table deterministic**: when `is_ambiguous()` is False, for every symbol and
 every next token the table selects **exactly one** production (or none) — the roll-back branch of `parse` has
@@ -255,6 +270,70 @@ theorem parse_unique (inp : CtorIn) (P : Parser) (hP : construct inp = .ok P)
   have hB := construct_built hP
   obtain ⟨hD, hnd⟩ := factRelD_of_built hB
   exact parse_is_the_tree hB hD hnd hamb (start_user_of_built hB hstart) raw hEnd fuel t h u hu hun huy
+
+/-! ### The same clauses for dictionaries with production templates — the constructor the driver executes
+
+`constructGN nonull T` = `constructG T` (generated productions as data `T`) plus the templates' `verify_grammar`
+stage (`nonull`: item symbols of delimiter-less list templates; a nullable one ⇒ `GrammarError`).  `P.userProds` is
+the **expanded** dictionary.  `PlainNames`: no name has the shape of a factorisation helper `X__Snn` (decidable). -/
+
+/-- `sets_exact` for dictionaries with templates -/
+theorem sets_exact_templates (nonull : List (List Char)) (T : Tmpl) (inp : CtorIn) (P : Parser)
+    (hP : constructGN nonull T inp = .ok P) (X t : Sym) :
+    ((∃ f, dget X P.first = some f ∧ t ∈ f) ↔ First P.prods P.terminals P.nullables X t) ∧
+    ((∃ w, dget X P.follow = some w ∧ t ∈ w) ↔
+        Follow P.prods P.terminals P.nullables P.first P.start endSym X t) :=
+  sets_exact_G (constructG_built (constructGN_ok hP)) X t
+
+/-- `conflict_report_exact` for dictionaries with templates -/
+theorem conflict_report_exact_templates (nonull : List (List Char)) (T : Tmpl) (inp : CtorIn) (P : Parser)
+    (hP : constructGN nonull T inp = .ok P) :
+    isAmbiguous P.table = false ↔
+      ∀ A rules, (A, rules) ∈ P.prods →
+        rules.Pairwise (PredDisjoint P.terminals P.nullables P.first P.follow A) :=
+  conflict_report_exact_G (constructG_built (constructGN_ok hP))
+
+/-- `user_sets_total` and `ll1_as_written_unambiguous` for dictionaries with templates: the sets of the expanded
+dictionary exist, and if the predict sets of the alternatives of every symbol of the expanded dictionary are pairwise
+disjoint, `is_ambiguous()` is False (so every list / map / sequence template that is LL(1) as expanded is reported
+as such). -/
+theorem ll1_as_written_unambiguous_templates (nonull : List (List Char)) (T : Tmpl) (inp : CtorIn) (P : Parser)
+    (hP : constructGN nonull T inp = .ok P) (hpl : PlainNames inp.prods)
+    (hne : ∀ X rules, (X, rules) ∈ P.userProds → rules ≠ [])
+    (hstart : inp.start ∈ inp.prods.map (·.1)) :
+    ∃ NU FU WU, nullables P.userProds = .ok NU ∧ firstSets P.terminals NU P.userProds = .ok FU ∧
+      followSets P.terminals NU FU P.userProds P.start endSym = .ok WU ∧
+      ((∀ X rules, (X, rules) ∈ P.userProds → rules.Pairwise (PredDisjoint P.terminals NU FU WU X)) →
+        isAmbiguous P.table = false) :=
+  ll1_unambiguous_G' (constructGN_ok hP) hpl hne hstart
+
+/-- `unique_derivation` and `parse_unique` for dictionaries with templates: at most one derivation tree of the
+expanded dictionary per token list, and `parse` returns it. -/
+theorem parse_unique_templates (nonull : List (List Char)) (T : Tmpl) (inp : CtorIn) (P : Parser)
+    (hP : constructGN nonull T inp = .ok P) (hpl : PlainNames inp.prods)
+    (hstart : inp.start ∈ inp.prods.map (·.1)) (hamb : isAmbiguous P.table = false) :
+    (∀ t1 t2 : Tree Sym, Derives P.terminals P.userProds t1 → Derives P.terminals P.userProds t2 →
+      t1.name = P.start → t2.name = P.start → t1.yield = t2.yield → t1 = t2) ∧
+    (∀ (raw : List (List Char × List Char)), (∀ tok ∈ (P.tokens raw).dropLast, tok.name ≠ endSym) →
+      ∀ (fuel : Nat) (t : Tree Sym), P.parse raw fuel = .ok t →
+      ∀ u : Tree Sym, Derives P.terminals P.userProds u → u.name = P.start →
+        u.yield = (P.tokens raw).dropLast → u = t) := by
+  have hB := constructG_built (constructGN_ok hP)
+  obtain ⟨hD, hnd⟩ := factRelD_of_builtG hB hpl
+  exact ⟨fun t1 t2 h1 h2 hn1 hn2 hy => unique_user_tree_G hB hD hnd hamb t1 t2 h1 h2 hn1 hn2 hy,
+    fun raw hEnd fuel t h u hu hun huy =>
+      parse_is_the_tree_G hB hD hnd hamb (start_user_of_builtG hB hpl hstart) raw hEnd fuel t h u hu hun huy⟩
+
+/-- `smart_indep` for dictionaries with templates -/
+theorem smart_indep_templates (nonull : List (List Char)) (T : Tmpl) (inp : CtorIn) (P1 P2 : Parser)
+    (h1 : constructGN nonull T { inp with smart := true } = .ok P1)
+    (h2 : constructGN nonull T { inp with smart := false } = .ok P2)
+    (hpl : PlainNames inp.prods) (hstart : inp.start ∈ inp.prods.map (·.1))
+    (ha1 : isAmbiguous P1.table = false) (ha2 : isAmbiguous P2.table = false)
+    (raw : List (List Char × List Char))
+    (hEnd : ∀ tok ∈ (P1.tokens raw).dropLast, tok.name ≠ endSym) :
+    (∃ fuel t, P1.parse raw fuel = .ok t) ↔ (∃ fuel t, P2.parse raw fuel = .ok t) :=
+  smart_indep_G (constructGN_ok h1) (constructGN_ok h2) hpl hstart ha1 ha2 raw hEnd
 
 /-! `hne` cannot be dropped — and the real parser behaves like the model: in
 `E → X b ; X → Z a | Z a b ; Z → (no alternatives)` both alternatives of `X` have an empty predict set
